@@ -4,10 +4,11 @@
   names, several or no `[Content_Types].xml`), every hash, with or without `--detach-certs`, `verify` on the package `sign`
   returns follows the relationship chain to the signature part the signer wrote, reads back the Manifest it wrote, maps every
   Reference URI back to the part it was made from and recomputes exactly the digests the signer stored — provided the two
-  decidable conditions `cfgOk` (the signer's own part names; true for every name `calcFileName` returns) and `refsOk` (every
-  part name survives `path.Join("./"+URI)` cut at the first `?`) hold and the environment (XML-DSig layer, `encoding/xml`,
-  digests) is sound on what the signer wrote.  Where `refsOk` fails the signature relic wrote is rejected by relic
-  (`vsix_uri_roundtrip_gap`: a listed finding).
+  decidable condition `cfgOk` (the signer's own part names; true for every name `calcFileName` returns) holds and the
+  environment (XML-DSig layer, `encoding/xml`, digests) is sound on what the signer wrote.  Since the repair of finding FV1 the
+  signer refuses (error, nothing written) exactly the inputs with a part name that does not survive
+  `path.Join("./"+URI)` cut at the first `?` (`refsOk`; `vsix_sign_refuses_iff`), and since the repair of FV4 inputs with two
+  kept members of one name; before, it signed them into packages relic's own verifier rejects (`vsix_uri_roundtrip_gap`).
 -/
 import Relic.Proofs.VsixSign
 import Relic.Proofs.VsixDemo
@@ -60,14 +61,14 @@ theorem readSignature_signed (E : Env) (c : Cfg) (pkg : Pkg) (obj : Node) (ct : 
     simp [frel, S.relsCerts hd, hcerts]
 
 /-- every stored reference resolves, in the signed package, to the part whose bytes were digested -/
-theorem refs_resolve (E : Env) (c : Cfg) (pkg : Pkg) (s : Vsix.Signed) (F : CfgFacts c) (hs : Vsix.sign E c pkg = .ok s) :
+theorem refs_resolve (fx : Bool) (E : Env) (c : Cfg) (pkg : Pkg) (s : Vsix.Signed) (F : CfgFacts c) (hs : Vsix.sign fx E c pkg = .ok s) :
     ∀ r ∈ s.refs, findLast s.parts r.name = some ⟨r.name, r.stream⟩ := by
   obtain ⟨m, hm, hrefs, hobj, hkept, hct, hparts⟩ := sign_inv hs
-  obtain ⟨hk, hdig⟩ := mangle_spec E pkg {} m hm
+  obtain ⟨hk, hdig⟩ := mangle_spec fx E pkg {} m hm
   simp only [List.nil_append] at hk
   intro r hr
   have hmem : (r.name, r.stream) ∈ sortMap (addDigests m.digests (fixedNews E c)) := by
-    rw [← mkRefs_spec _ _ _ hrefs]
+    rw [← mkRefs_spec _ _ _ _ hrefs]
     exact List.mem_map_of_mem (f := fun r => (r.name, r.stream)) hr
   rw [mem_sortMap, addDigests, hdig, ← List.foldl_append, mem_digests] at hmem
   simp only [List.not_mem_nil, and_false, or_false] at hmem
@@ -88,17 +89,15 @@ theorem refs_resolve (E : Env) (c : Cfg) (pkg : Pkg) (s : Vsix.Signed) (F : CfgF
       exact keptOf_keep this
     rw [look_kept F _ hkeep, hmem]
 
-/-- **vsix_sign_then_verify.** For every package, configuration passing `cfgOk`, and sound environment: if `sign` succeeds and every
-    part name survives the Reference URI (`refsOk`), `verify` accepts the signed package under the signer's key and hash,
-    having looked up and hashed, Reference by Reference and in Manifest order, exactly the (part, bytes) pairs whose digests
-    the signer stored. -/
-theorem vsix_sign_then_verify (E : Env) (c : Cfg) (pkg : Pkg) (s : Vsix.Signed) (pk : Bytes)
-    (hs : Vsix.sign E c pkg = .ok s) (hc : cfgOk c = true) (hr : refsOk s.refs = true) (S : VsixSound E c s.obj pk) :
-    Vsix.verify E s.parts = .ok ⟨c.hash, pk, s.refs.map fun r => (r.name, r.stream)⟩ := by
+/-- the guarded form, for the signer and verifier before (`fx = false`) and after (`fx = true`) the repairs -/
+theorem vsix_sign_then_verify_guarded (fx : Bool) (E : Env) (c : Cfg) (pkg : Pkg) (s : Vsix.Signed) (pk : Bytes)
+    (hs : Vsix.sign fx E c pkg = .ok s) (hc : cfgOk c = true) (hr : refsOk s.refs = true) (S : VsixSound E c s.obj pk)
+    (hnd : fx = true → ((keptOf pkg).map (·.name)).Nodup) :
+    Vsix.verify fx E s.parts = .ok ⟨c.hash, pk, s.refs.map fun r => (r.name, r.stream)⟩ := by
   have F := cfgFacts_of_cfgOk hc
-  have hres := refs_resolve E c pkg s F hs
+  have hres := refs_resolve fx E c pkg s F hs
   obtain ⟨m, hm, hrefs, hobj, hkept, hct, hparts⟩ := sign_inv hs
-  obtain ⟨hk, -⟩ := mangle_spec E pkg {} m hm
+  obtain ⟨hk, -⟩ := mangle_spec fx E pkg {} m hm
   simp only [List.nil_append] at hk
   obtain ⟨emb, hx, hemb⟩ := S.xml
   have hrs := readSignature_signed E c pkg s.obj s.ctOut pk F S
@@ -108,62 +107,141 @@ theorem vsix_sign_then_verify (E : Env) (c : Cfg) (pkg : Pkg) (s : Vsix.Signed) 
     intro r hrm
     simp only [refsOk, List.all_eq_true, decide_eq_true_eq] at hr
     exact ⟨hr r hrm, hres r hrm⟩
+  have hcore : verifyCore E (findLast s.parts) =
+      .ok ((E.xsign c.hash c.detach s.obj, if c.detach then chainKeys E c.chain else []),
+           ⟨s.obj, c.hash, pk, emb, none⟩, s.refs.map fun r => (r.name, r.stream)) := by
+    unfold verifyCore
+    rw [hparts, hk] at hck ⊢
+    rw [hrs]
+    simp only [hx, hck]
+  have hnames : s.parts.map (·.name) = (keptOf pkg).map (·.name) ++ newNames c := by
+    rw [hparts, hk, List.map_append, newsOf_names]
+  -- no two members of one name, no payload member outside the Manifest
+  have hdup : fx = true → hasDup s.parts = false := by
+    intro hfx
+    simp only [hasDup, hnames, Bool.not_eq_false', decide_eq_true_eq]
+    rw [List.nodup_append]
+    refine ⟨hnd hfx, F.nodup, ?_⟩
+    intro a ha b hb hab
+    obtain ⟨p, hp, rfl⟩ := List.mem_map.mp ha
+    have h1 := keptOf_keep hp
+    have h2 := F.notKept b hb
+    rw [← hab, h1] at h2
+    cases h2
+  have hunc : uncovered (s.parts.map (·.name)) (s.refs.map fun r => (r.name, r.stream)) = false := by
+    cases hu : uncovered (s.parts.map (·.name)) (s.refs.map fun r => (r.name, r.stream)) with
+    | false => rfl
+    | true =>
+      exfalso
+      simp only [uncovered, List.any_eq_true, Bool.and_eq_true, Bool.not_eq_true', List.any_eq_false,
+        decide_eq_false_iff_not] at hu
+      obtain ⟨n, hn, hkeep, hnot⟩ := hu
+      rw [hnames, List.mem_append] at hn
+      rcases hn with hn | hn
+      · obtain ⟨p, hp, rfl⟩ := List.mem_map.mp hn
+        simp only [keptOf, List.mem_filter] at hp
+        have := (refs_names_iff hs p.name).mpr (Or.inl ⟨p, hp.1, rfl, hkeep⟩)
+        obtain ⟨r, hr', hrn⟩ := List.mem_map.mp this
+        exact hnot (r.name, r.stream) (List.mem_map.mpr ⟨r, hr', rfl⟩) (by simpa using hrn)
+      · have := F.notKept n hn
+        rw [hkeep] at this
+        cases this
   unfold Vsix.verify verifyF
-  rw [hparts, hk] at hck ⊢
-  rw [hrs]
-  simp only [hx, hck]
-  cases hd : c.detach with
-  | false => simp [hemb hd]
-  | true => simp [S.leaf hd]
+  cases fx with
+  | false =>
+    simp only [Bool.false_and, Bool.false_eq_true, if_false, hcore]
+    cases hd : c.detach with
+    | false => simp [hemb hd]
+    | true => simp [S.leaf hd]
+  | true =>
+    simp only [hdup rfl, Bool.and_false, Bool.false_eq_true, if_false, hcore, hunc]
+    cases hd : c.detach with
+    | false => simp [hemb hd]
+    | true => simp [S.leaf hd]
 
-theorem demo_sign (d : Bool) (pkg : Pkg) (h : (Vsix.sign (demoE (demoCfg d) pkg) (demoCfg d) pkg).isOk = true) :
-    Vsix.sign (demoE (demoCfg d) pkg) (demoCfg d) pkg = .ok (demoSigned (demoCfg d) pkg) := by
+/-- **vsix_sign_then_verify** (full strength, repaired code).  For every package — whatever it holds — every configuration passing
+    `cfgOk` and every environment sound on what this signing wrote: if `sign` returns a package, `verify` accepts it under the
+    signer's key and hash, having looked up and hashed, Reference by Reference and in Manifest order, exactly the
+    (part, bytes) pairs whose digests the signer stored.  What `sign` refuses instead is characterised by
+    `vsix_sign_refuses_iff`. -/
+theorem vsix_sign_then_verify (E : Env) (c : Cfg) (pkg : Pkg) (s : Vsix.Signed) (pk : Bytes)
+    (hs : Vsix.sign true E c pkg = .ok s) (hc : cfgOk c = true) (S : VsixSound E c s.obj pk) :
+    Vsix.verify true E s.parts = .ok ⟨c.hash, pk, s.refs.map fun r => (r.name, r.stream)⟩ :=
+  vsix_sign_then_verify_guarded true E c pkg s pk hs hc (sign_true_ok hs).1 S (fun _ => (sign_true_ok hs).2)
+
+/-- **vsix_sign_refuses_iff.** Relative to the signer before the repairs: on an input it signed into `s₀` and that has no two
+    kept members of one name, the repaired signer returns the same `s₀` exactly when every part name survives the Reference
+    URI (`refsOk`), and refuses with the error `unreferencable` exactly when one does not. -/
+theorem vsix_sign_refuses_iff (E : Env) (c : Cfg) (pkg : Pkg) (s₀ : Vsix.Signed) (h0 : Vsix.sign false E c pkg = .ok s₀)
+    (hnd : ((keptOf pkg).map (·.name)).Nodup) :
+    (Vsix.sign true E c pkg = .ok s₀ ↔ refsOk s₀.refs = true) ∧
+    (Vsix.sign true E c pkg = .err "unreferencable" ↔ refsOk s₀.refs = false) := by
+  obtain ⟨h1, h2⟩ := sign_true_of_false h0 hnd
+  cases hr : refsOk s₀.refs with
+  | true => simp [h1 hr]
+  | false => simp [h2 hr]
+
+/-- a second kept member of a name is refused -/
+theorem vsix_sign_refuses_duplicates (E : Env) (c : Cfg) (pkg : Pkg) (s : Vsix.Signed) (hs : Vsix.sign true E c pkg = .ok s) :
+    ((pkg.filter fun p => keepFile p.name).map (·.name)).Nodup :=
+  (sign_true_ok hs).2
+
+theorem demo_sign (fx d : Bool) (pkg : Pkg) (h : (Vsix.sign fx (demoE (demoCfg d) pkg) (demoCfg d) pkg).isOk = true) :
+    Vsix.sign fx (demoE (demoCfg d) pkg) (demoCfg d) pkg = .ok (demoSigned fx (demoCfg d) pkg) := by
   unfold demoSigned
-  cases hs : Vsix.sign (demoE (demoCfg d) pkg) (demoCfg d) pkg with
+  cases hs : Vsix.sign fx (demoE (demoCfg d) pkg) (demoCfg d) pkg with
   | ok s => rfl
   | err x => rw [hs] at h; cases h
   | panic x => rw [hs] at h; cases h
   | diverge => rw [hs] at h; cases h
 
-theorem demo_sound (d : Bool) : VsixSound (demoE (demoCfg d) demoPkg) (demoCfg d) (demoSigned (demoCfg d) demoPkg).obj [7] := by
+theorem demo_sound (fx d : Bool) : VsixSound (demoE (demoCfg d) demoPkg) (demoCfg d) (demoSigned fx (demoCfg d) demoPkg).obj [7] := by
   have hc : ∀ (pkg : Pkg) x, x ∈ (demoCfg d).chain → ∃ ks, (demoE (demoCfg d) pkg).parseCerts x.2 = some ks := by
     intro pkg x hx
     simp only [demoCfg, List.mem_singleton] at hx
     subst hx
     exact ⟨[[7]], rfl⟩
   cases d
-  · exact ⟨by decide +kernel, by decide +kernel, by decide, fun s => by simp [demoE, demoEnv], fun _ => hc _, ⟨[[7]], fun _ => rfl, fun _ => by decide⟩, by decide⟩
-  · exact ⟨by decide +kernel, by decide +kernel, fun _ => by decide +kernel, fun s => by simp [demoE, demoEnv], fun _ => hc _, ⟨[[7]], fun _ => rfl, fun _ => by decide⟩,
-      fun _ => by decide⟩
+  · cases fx
+    · exact ⟨by decide +kernel, by decide +kernel, by decide, fun s => by simp [demoE, demoEnv], fun _ => hc _, ⟨[[7]], fun _ => rfl, fun _ => by decide⟩, by decide⟩
+    · exact ⟨by decide +kernel, by decide +kernel, by decide, fun s => by simp [demoE, demoEnv], fun _ => hc _, ⟨[[7]], fun _ => rfl, fun _ => by decide⟩, by decide⟩
+  · cases fx
+    · exact ⟨by decide +kernel, by decide +kernel, fun _ => by decide +kernel, fun s => by simp [demoE, demoEnv], fun _ => hc _, ⟨[[7]], fun _ => rfl, fun _ => by decide⟩,
+        fun _ => by decide⟩
+    · exact ⟨by decide +kernel, by decide +kernel, fun _ => by decide +kernel, fun s => by simp [demoE, demoEnv], fun _ => hc _, ⟨[[7]], fun _ => rfl, fun _ => by decide⟩,
+        fun _ => by decide⟩
 
 /-- the hypotheses are satisfiable, with embedded and with detached certificates, on a package that holds a payload part,
     a content types part, a foreign relationship part and a stale origin part: the verifier recomputes four digests -/
-example (d : Bool) : Vsix.verify (demoE (demoCfg d) demoPkg) (demoSigned (demoCfg d) demoPkg).parts =
-    .ok ⟨.sha256, [7], (demoSigned (demoCfg d) demoPkg).refs.map fun r => (r.name, r.stream)⟩ ∧
-    (demoSigned (demoCfg d) demoPkg).refs.length = 4 := by
-  refine ⟨vsix_sign_then_verify _ (demoCfg d) demoPkg _ [7] (demo_sign d demoPkg (by cases d <;> rfl)) (by cases d <;> decide)
-    (by cases d <;> decide) (demo_sound d), by cases d <;> decide⟩
+example (d : Bool) : Vsix.verify true (demoE (demoCfg d) demoPkg) (demoSigned true (demoCfg d) demoPkg).parts =
+    .ok ⟨.sha256, [7], (demoSigned true (demoCfg d) demoPkg).refs.map fun r => (r.name, r.stream)⟩ ∧
+    (demoSigned true (demoCfg d) demoPkg).refs.length = 4 := by
+  refine ⟨vsix_sign_then_verify _ (demoCfg d) demoPkg _ [7] (demo_sign true d demoPkg (by cases d <;> rfl)) (by cases d <;> decide)
+    (demo_sound true d), by cases d <;> decide⟩
 
-/-- the statement without the `refsOk` guard -/
-def vsix_sign_then_verify_full : Prop :=
-  ∀ (E : Env) (c : Cfg) (pkg : Pkg) (s : Vsix.Signed) (pk : Bytes), Vsix.sign E c pkg = .ok s → cfgOk c = true → VsixSound E c s.obj pk →
-    ∃ v, Vsix.verify E s.parts = .ok v
+/-- the statement for the code before the repairs, without the `refsOk` guard -/
+def vsix_sign_then_verify_full_orig : Prop :=
+  ∀ (E : Env) (c : Cfg) (pkg : Pkg) (s : Vsix.Signed) (pk : Bytes), Vsix.sign false E c pkg = .ok s → cfgOk c = true → VsixSound E c s.obj pk →
+    ∃ v, Vsix.verify false E s.parts = .ok v
 
-theorem query_sound : VsixSound (demoE (demoCfg false) queryPkg) (demoCfg false) (demoSigned (demoCfg false) queryPkg).obj [7] :=
+theorem query_sound : VsixSound (demoE (demoCfg false) queryPkg) (demoCfg false) (demoSigned false (demoCfg false) queryPkg).obj [7] :=
   ⟨by decide +kernel, by decide +kernel, by decide, fun s => by simp [demoE, demoEnv], (fun h => nomatch h), ⟨[[7]], fun _ => rfl, fun _ => by decide⟩, by decide⟩
 
-/-- **vsix_uri_roundtrip_gap** (finding).  A part named `a?b.txt`: signing succeeds, and relic's verifier rejects the result
-    ("file not found: a"): `checkManifest` cuts the cleaned URI at the first `?`, which here is inside the part name. -/
+/-- **vsix_uri_roundtrip_gap** (finding FV1, repaired).  A part named `a?b.txt`.  Before the repair: signing succeeds, and relic's
+    verifier rejects the result ("file not found: a": `checkManifest` cuts the cleaned URI at the first `?`, which here is
+    inside the part name).  After it: signing is refused. -/
 theorem vsix_uri_roundtrip_gap :
-    Vsix.sign (demoE (demoCfg false) queryPkg) (demoCfg false) queryPkg = .ok (demoSigned (demoCfg false) queryPkg) ∧
-    refsOk (demoSigned (demoCfg false) queryPkg).refs = false ∧
-    Vsix.verify (demoE (demoCfg false) queryPkg) (demoSigned (demoCfg false) queryPkg).parts = .err "file-not-found" :=
-  ⟨demo_sign false queryPkg rfl, by decide, by decide +kernel⟩
+    Vsix.sign false (demoE (demoCfg false) queryPkg) (demoCfg false) queryPkg = .ok (demoSigned false (demoCfg false) queryPkg) ∧
+    refsOk (demoSigned false (demoCfg false) queryPkg).refs = false ∧
+    Vsix.verify false (demoE (demoCfg false) queryPkg) (demoSigned false (demoCfg false) queryPkg).parts = .err "file-not-found" ∧
+    Vsix.sign true (demoE (demoCfg false) queryPkg) (demoCfg false) queryPkg = .err "unreferencable" :=
+  ⟨demo_sign false false queryPkg rfl, by decide, by decide +kernel,
+    ((vsix_sign_refuses_iff _ _ _ _ (demo_sign false false queryPkg rfl) (by decide)).2).mpr (by decide)⟩
 
-theorem vsix_sign_then_verify_full_false : ¬ vsix_sign_then_verify_full := by
+theorem vsix_sign_then_verify_full_orig_false : ¬ vsix_sign_then_verify_full_orig := by
   intro h
   obtain ⟨v, hv⟩ := h _ _ _ _ [7] vsix_uri_roundtrip_gap.1 (by decide) query_sound
-  rw [vsix_uri_roundtrip_gap.2.2] at hv
+  rw [vsix_uri_roundtrip_gap.2.2.1] at hv
   cases hv
 
 /-- **vsix_refsOk_of_simple.** A syntactic class on which the `refsOk` guard holds: part names made of slash-separated
@@ -188,11 +266,11 @@ example : SimpleName (relPath []) ∧ SimpleName (relPath sOrigin) ∧ SimpleNam
 
 /-- **vsix_manifest_sorted.** The Manifest lists every covered part exactly once, in strictly ascending byte order of the
     part names (`sort.Strings` over the keys of `m.digests`), whatever the order or multiplicity of the members. -/
-theorem vsix_manifest_sorted (E : Env) (c : Cfg) (pkg : Pkg) (s : Vsix.Signed) (hs : Vsix.sign E c pkg = .ok s) :
+theorem vsix_manifest_sorted (fx : Bool) (E : Env) (c : Cfg) (pkg : Pkg) (s : Vsix.Signed) (hs : Vsix.sign fx E c pkg = .ok s) :
     (s.refs.map (·.name)).Pairwise (fun a b => bytesLt a b = true) :=
   refs_sorted hs
 
-example : ((demoSigned (demoCfg false) demoPkg).refs.map (·.name)).Pairwise (fun a b => bytesLt a b = true) :=
-  vsix_manifest_sorted _ _ _ _ (demo_sign false demoPkg rfl)
+example : ((demoSigned true (demoCfg false) demoPkg).refs.map (·.name)).Pairwise (fun a b => bytesLt a b = true) :=
+  vsix_manifest_sorted true _ _ _ _ (demo_sign true false demoPkg rfl)
 
 end Relic.Props.C01
